@@ -249,6 +249,18 @@ class Ctx:
             print(f"  {what}", flush=True)
         self.violations.append(path)
 
+    def open_finding(self, fid, reproduces, what, replay=None):
+        """Reproducer of an OPEN known finding: prints its KNOWN-FINDING line while it reproduces and is listed as open;
+        a reproducing defect that is not listed (or listed as fixed) is a violation; one that no longer reproduces is noted."""
+        k = next((k for k in self.known if k["id"] == fid), None)
+        if reproduces:
+            if k is not None and k["status"] == "open":
+                self.report_known(k)
+            else:
+                self.violation(f"{fid}: {what}", dict(replay or {}, kind="finding", finding=fid), confirmed=True)
+        elif k is not None and k["status"] == "open":
+            self.notes.append(f"known finding {fid} no longer reproduces")
+
     def report_known(self, k):
         if k["id"] not in self.known_reported:
             self.known_reported.append(k["id"])
